@@ -5,6 +5,7 @@ from ..core import call_name, dotted, src
 from ..lib import Rules, need, calls_in
 from ..template import contains, template_func, effects
 from . import dec_common as dc
+from . import refcheck
 
 HELPERS = [
     ('logprobs_max_deviation', dc.D + ':logprobs_max_deviation', 'normalisation measure = max_t |sum_c exp(x[t,c]) - 1|'),
@@ -19,6 +20,17 @@ HELPERS = [
     ('get_reduced_Pc', dc.DEC + '.get_reduced_Pc', 'pre-selected symbol scores plus one impossible (-inf) column'),
     ('top_k', 'pero_ocr.decoding.multisort:top_k', 'k largest entries by argpartition, un-ravelled with the input shape'),
 ]
+
+
+SETUP_WHAT = {
+    'dec_init': 'the decoder keeps letters, beam width, LM, LM scale and insertion bonus as given; blank = index of the blank symbol; default pre-selection',
+    'greedy_init': 'the greedy decoder keeps letters and the blank index',
+    'get_reduced_last_chars': 'last characters are re-indexed into the pre-selected symbols, others point at the impossible column',
+    'select_relevant_logits': 'pre-selection keeps symbols with log-probability above -10',
+    'assert_letters_valid': 'duplicate letters and a blank that is not last are rejected',
+    'assert_beam_size_valid': 'beam width must be a positive int',
+    'duplicit_elements': 'duplicates of a list',
+}
 
 
 def is_lm(e):
@@ -40,10 +52,11 @@ def run(repo, chk):
     for name, q, what in HELPERS:
         R.run('RECUR', dc.template_check, repo, chk, 'RECUR', q, name, what)
     R.run('RECUR', call_effects, repo, chk)
+    refcheck.run_all(R, repo, chk, 'RECUR', 'decsetup_ref.py', SETUP_WHAT, only=tuple(SETUP_WHAT))
     R.run('LOOPSTATE', dc.loopstate, repo, chk, 'LOOPSTATE', False)
     R.run('PAIR', pair, repo, chk)
     chk.expect('GUARD', 6)
-    chk.expect('RECUR', 25)
+    chk.expect('RECUR', 32)
     chk.expect('LOOPSTATE', 6)
     chk.expect('PAIR', 3)
 
